@@ -266,16 +266,6 @@ func (P *Prog) resolveRefines() error {
 				s.Returns = tc.Returns
 			}
 			s.AliasParams = tc.Params
-			// a refining contract without a frame of its own inherits the type contract's "modifies *"
-			own := false
-			for _, m := range s.Modifies {
-				if c, ok := m.(*Call); !ok || c.Fun != "ghost" {
-					own = true
-				}
-			}
-			if !own && tc.Spec.ModAll {
-				s.ModAll = true
-			}
 			// ghost variables the type contract may modify
 			for _, m := range tc.Spec.Modifies {
 				if c, ok := m.(*Call); ok && c.Fun == "ghost" {
